@@ -229,7 +229,8 @@ func runC02(c *Check) {
 	// ---- R3 bounds: the parse path, and the write path a parsed profile must survive
 	onWrite := map[*ssa.Function]bool{}
 	var wroots []*ssa.Function
-	for _, n := range []string{"serialize", "(*Profile).Copy", "(*Profile).Write", "(*Profile).WriteUncompressed"} {
+	wroots = append(wroots, c.serializers("C02-R3")...)
+	for _, n := range []string{"(*Profile).Copy", "(*Profile).Write", "(*Profile).WriteUncompressed"} {
 		if f := c.anchorFn("C02-R3", "profile", n); f != nil {
 			wroots = append(wroots, f)
 		}
@@ -406,7 +407,9 @@ func (c *Check) validityGateContent() {
 		return
 	}
 	n := 0
-	for _, b := range cv.Blocks {
+	// the tables may be filled in CheckValid itself or in helpers it calls (one per table)
+	for _, b := range helperBlocks(cv, 2) {
+		fn := b.Parent()
 		for _, ins := range b.Instrs {
 			mu, ok := ins.(*ssa.MapUpdate)
 			if !ok {
@@ -416,12 +419,23 @@ func (c *Check) validityGateContent() {
 			if !ok {
 				continue
 			}
-			mt := mk.Type().Underlying().(*types.Map)
-			kind := typeShort(mt.Elem())
+			// the entity is the object whose ID is the key (the table may be a map to the
+			// entity or a set of ids)
+			var elem ssa.Value
+			if ld, ok := mu.Key.(*ssa.UnOp); ok && ld.Op == token.MUL {
+				if fa, ok := ld.X.(*ssa.FieldAddr); ok {
+					if _, F := fieldOf(fa.X.Type(), fa.Field); F == "ID" {
+						elem = fa.X
+					}
+				}
+			}
+			if elem == nil {
+				continue
+			}
+			kind := typeShort(elem.Type())
 			n++
-			elem := mu.Value
 			has := map[string]bool{}
-			for _, b2 := range cv.Blocks {
+			for _, b2 := range fn.Blocks {
 				for _, i2 := range b2.Instrs {
 					cmp, ok := i2.(*ssa.BinOp)
 					if !ok || (cmp.Op != token.EQL && cmp.Op != token.NEQ) {
@@ -456,7 +470,7 @@ func (c *Check) validityGateContent() {
 				}
 			}
 			// `if _, dup := table[id]; dup` form: a comma-ok lookup whose flag decides a branch
-			for _, b2 := range cv.Blocks {
+			for _, b2 := range fn.Blocks {
 				if !(b2 == b || b2.Dominates(b)) {
 					continue
 				}
@@ -608,13 +622,39 @@ var lenProg *Program
 // boundedByInput: the MakeSlice length n is compared against an expression of len(input)
 // on a dominating branch whose "too large" side leaves the function.
 func boundedByInput(f *ssa.Function, mk *ssa.MakeSlice) bool {
-	n := mk.Len
+	return valueBoundedByInput(f, mk.Len, mk, 0)
+}
+
+// valueBoundedByInput: a comparison of n with an expression over the remaining input length
+// dominates instruction at in f; when n is a parameter of f, the same holds for the argument
+// at every call of f (f must only be called directly).
+func valueBoundedByInput(f *ssa.Function, n ssa.Value, at ssa.Instruction, depth int) bool {
 	for {
 		if cv, ok := n.(*ssa.Convert); ok {
 			n = cv.X
 			continue
 		}
 		break
+	}
+	if par, ok := n.(*ssa.Parameter); ok && depth < 2 {
+		idx := -1
+		for i, q := range f.Params {
+			if q == par {
+				idx = i
+			}
+		}
+		calls, asValue := directCallSites(lenProg, f)
+		if idx >= 0 && len(calls) > 0 && !asValue {
+			all := true
+			for _, call := range calls {
+				if idx >= len(call.Common().Args) || !valueBoundedByInput(call.Parent(), call.Common().Args[idx], call, depth+1) {
+					all = false
+				}
+			}
+			if all {
+				return true
+			}
+		}
 	}
 	for _, b := range f.Blocks {
 		for _, ins := range b.Instrs {
@@ -633,7 +673,7 @@ func boundedByInput(f *ssa.Function, mk *ssa.MakeSlice) bool {
 			if !mentionsLen(other, map[ssa.Value]bool{}) {
 				continue
 			}
-			if instrDominates(cmp, mk) {
+			if instrDominates(cmp, at) {
 				return true
 			}
 		}
